@@ -316,6 +316,13 @@ def hostTail (puny : Str → Str) (o : Opts) (c : Str) : Str :=
   let c := if o.stripIrrelevantSubdomains then subdomainSub o.normalizeAmp c else c
   if o.normalizeAmp then stripAmpPrefix puny c else c
 
+/-- the hostname after the irrelevant-subdomain step -/
+def afterSub (o : Opts) (c : Str) : Str :=
+  if o.stripIrrelevantSubdomains then subdomainSub o.normalizeAmp c else c
+
+theorem hostTail_eq (puny : Str → Str) (o : Opts) (c : Str) :
+    hostTail puny o c = if o.normalizeAmp then stripAmpPrefix puny (afterSub o c) else afterSub o c := rfl
+
 theorem subdomainSub_nil (amp : Bool) : subdomainSub amp [] = [] := by
   simp [subdomainSub, subdomainSubFrom]
 
